@@ -1,0 +1,34 @@
+/*
+ * Verification schedule points (no-ops unless compiled with -DUNIFEX_VERIF=1).
+ *
+ * UNIFEX_VERIF_YIELD(site) marks the beginning of an atomic step of a lock-free
+ * protocol; UNIFEX_VERIF_SPIN(site) marks "a condition another thread must change
+ * was found false, about to re-check".  With the guard on, both call through a
+ * function pointer that is null unless a test harness installed a controller, so
+ * the library behaves identically when no controller is present.
+ */
+#pragma once
+
+#if defined(UNIFEX_VERIF) && UNIFEX_VERIF
+
+#include <atomic>
+
+namespace unifex_verif {
+using hook_fn = void (*)(const char* site, int kind, const void* obj) noexcept;
+inline std::atomic<hook_fn> hook{nullptr};
+inline void call_hook(const char* site, int kind, const void* obj = nullptr) noexcept {
+  if (hook_fn h = hook.load(std::memory_order_acquire)) {
+    h(site, kind, obj);
+  }
+}
+}  // namespace unifex_verif
+
+#define UNIFEX_VERIF_YIELD(site) ::unifex_verif::call_hook(site, 0)
+#define UNIFEX_VERIF_SPIN(site) ::unifex_verif::call_hook(site, 1)
+
+#else
+
+#define UNIFEX_VERIF_YIELD(site) ((void)0)
+#define UNIFEX_VERIF_SPIN(site) ((void)0)
+
+#endif
